@@ -11,7 +11,8 @@ A location is a position in the heap; allocation appends.  Core Lean only; every
 -/
 namespace Fsic.Heap
 
-abbrev Loc := Nat
+/-- A location is a position in the heap (written `Loc` for readability; it *is* `Nat`). -/
+scoped notation "Loc" => Nat
 
 /-- Immutable Python values (identity irrelevant). -/
 inductive Imm where
